@@ -6,6 +6,7 @@
 //	err:<text>    write text to stderr
 //	slurp         read stdin to EOF and report the bytes
 //	line          read one line of stdin and report it
+//	save:<path>   read stdin to EOF, write it to a file and report the bytes
 //	cat:<path>    copy a file to stdout
 //	exit:<n>      exit with status n
 //	kill:<sig>    kill itself with a signal number
@@ -79,6 +80,10 @@ func main() {
 		case "line":
 			b, _ := stdin.ReadString('\n')
 			send("got " + strconv.Quote(b))
+		case "save":
+			b, _ := io.ReadAll(stdin)
+			os.WriteFile(arg, b, 0644)
+			send("got " + strconv.Quote(string(b)))
 		case "cat":
 			b, err := os.ReadFile(arg)
 			if err == nil {
